@@ -247,7 +247,7 @@ _run_l0 = run
 
 def run(check):
     _run_l0(check)
-    if not check.violations:
+    if not check.has_failing():
         level_part(check)
     check.rule += ("; attachment levels: random programs with cfg attributes on the file, on types, on variants, on fields and on "
                    "struct-variant fields (45% of positions) x 6 target lists through parser::parse, checked against an independent "
